@@ -14,18 +14,19 @@ import (
 
 // specCtx evaluates contract expressions (Go expression syntax plus imp/old/forall/sha/...) to SMT terms.
 type specCtx struct {
-	fc      *fnCtx
-	g       *gen
-	fn      *ssa.Function // function whose parameter/result names are in scope
-	args    map[string]*val
-	names   map[string]*val
-	h, oldH heap
-	results []*val
-	guard   string
-	shows   []showTerm
-	bound   map[string]*val
-	atBlock *ssa.BasicBlock
+	fc       *fnCtx
+	g        *gen
+	fn       *ssa.Function // function whose parameter/result names are in scope
+	args     map[string]*val
+	names    map[string]*val
+	h, oldH  heap
+	results  []*val
+	guard    string
+	shows    []showTerm
+	bound    map[string]*val
+	atBlock  *ssa.BasicBlock
 	ifacePkg *types.Package
+	loopHdr  *ssa.BasicBlock
 }
 
 func (fc *fnCtx) specCtxEntry() *specCtx {
@@ -822,6 +823,25 @@ func (sc *specCtx) call(x *ast.CallExpr) (*val, error) {
 			return nil, err
 		}
 		return sc.fc.errorsIs(as[0], as[1]), nil
+	case "loopowned":
+		// loopowned(x): the loop-carried reference x still designates the object it designated at loop entry,
+		// or an object allocated since loop entry
+		if sc.loopHdr == nil || len(x.Args) != 1 {
+			return nil, fmt.Errorf("loopowned(x) is only meaningful in a loop invariant")
+		}
+		vi, ok := x.Args[0].(*ast.Ident)
+		if !ok {
+			return nil, fmt.Errorf("loopowned expects a loop variable")
+		}
+		cur, err := sc.lookup(vi.Name)
+		if err != nil {
+			return nil, err
+		}
+		ent, ok := sc.fc.loopEntryNames[sc.loopHdr][vi.Name]
+		if !ok {
+			return nil, fmt.Errorf("%s is not loop-carried", vi.Name)
+		}
+		return &val{k: kBool, t: []string{fmt.Sprintf("(or (= %s %s) (>= %s %s))", cur.t[0], ent.t[0], cur.t[0], sc.fc.loopEntryAC[sc.loopHdr])}}, nil
 	case "unchanged":
 		// unchanged(p): the object p points to has the same contents as at entry
 		as, err := evArgs()
